@@ -270,6 +270,8 @@ void profile_storm(RunCtx& ctx)
         c.sched = ctx.draw_sched(rng, envfault && rng.chance(0.5));
         if (envfault && rng.chance(0.4))
             c.alloc_fail_at = 1 + (int64_t)rng.below(1u << rng.range(0, 14));
+        if (envfault && c.backend == B_PRETTY && rng.chance(0.5))
+            c.sink_fail_after = rng.below(rng.chance(0.5) ? 40 : 3000);
         c.ceiling = envfault && what.rfind("entity-bomb", 0) != 0 ? 0 : default_ceiling(c.bytes.size());
         if (!ctx.keep(i))
             continue;
